@@ -13,6 +13,7 @@ import (
 	"github.com/cloudflare/pat-go/ecdsa"
 	"github.com/cloudflare/pat-go/ed25519"
 	"github.com/cloudflare/pat-go/tokens"
+	"github.com/cloudflare/pat-go/tokens/batched"
 	"github.com/cloudflare/pat-go/tokens/type1"
 	"github.com/cloudflare/pat-go/tokens/type2"
 	"github.com/cloudflare/pat-go/tokens/type3"
@@ -283,6 +284,94 @@ func newVerdictWorld(c *ctx, kind string, hid int) *verdictWorld {
 				return true, ""
 			}
 		}
+	case "batchissuer":
+		k1, rsa0 := p384Key(c.seed, "k1"), rsaKey(0)
+		iss1, iss2 := type1.NewBasicPrivateIssuer(k1), type2.NewBasicPublicIssuer(rsa0)
+		for n := 0; iss1.TokenKeyID()[31] == iss2.TokenKeyID()[31]; n++ {
+			k1 = p384Key(c.seed, fmt.Sprintf("k1-alt-%d", n))
+			iss1 = type1.NewBasicPrivateIssuer(k1)
+		}
+		bi := batched.NewBasicBatchedIssuer(batchIssuer1{iss1}, batchIssuer2{iss2}) // ONE batch issuer for the whole history
+		unknown := byte(0)
+		for unknown == iss1.TokenKeyID()[31] || unknown == iss2.TokenKeyID()[31] {
+			unknown++
+		}
+		type fin func([]byte) (tokens.Token, error)
+		type val struct {
+			enc  []byte
+			fins []fin
+			ok   []func(tokens.Token) bool
+		}
+		or1 := func(t tokens.Token) bool {
+			return bytesEq(fullEvaluate(oprf.SuiteP384, k1, authInput(t)), t.Authenticator)
+		}
+		or2 := func(t tokens.Token) bool { return verifyPSS(&rsa0.PublicKey, t) == nil }
+		mk := func(names ...string) val {
+			var v val
+			var reqs []tokens.TokenRequestWithDetails
+			for _, n := range names {
+				if n[len(n)-1] == '1' {
+					st, err := type1.NewBasicPrivateClient().CreateTokenRequest(randBytes(r, 10), randNonce(r), iss1.TokenKeyID(), iss1.TokenKey())
+					if err != nil {
+						panic(err)
+					}
+					req := st.Request()
+					switch n {
+					case "bad1":
+						req = &type1.BasicPrivateTokenRequest{TokenKeyID: req.TokenKeyID, BlindedReq: append([]byte{0x02}, bytesRepeat(0xff, 48)...)}
+					case "unk1":
+						req = &type1.BasicPrivateTokenRequest{TokenKeyID: unknown, BlindedReq: req.BlindedReq}
+					}
+					reqs, v.fins, v.ok = append(reqs, req), append(v.fins, st.FinalizeToken), append(v.ok, or1)
+				} else {
+					st, err := type2.NewBasicPublicClient().CreateTokenRequest(randBytes(r, 10), randNonce(r), iss2.TokenKeyID(), iss2.TokenKey())
+					if err != nil {
+						panic(err)
+					}
+					req := st.Request()
+					if n == "bad2" {
+						req = &type2.BasicPublicTokenRequest{TokenKeyID: req.TokenKeyID, BlindedReq: bytesRepeat(0xff, 256)}
+					}
+					reqs, v.fins, v.ok = append(reqs, req), append(v.fins, st.FinalizeToken), append(v.ok, or2)
+				}
+			}
+			br, err := batched.NewBasicClient().CreateTokenRequest(reqs)
+			if err != nil {
+				panic(err)
+			}
+			v.enc = append([]byte{}, br.Marshal()...)
+			return v
+		}
+		vals := map[string]val{"ok1": mk("ok1"), "ok2": mk("ok2"), "pair": mk("ok1", "ok2"), "bad1": mk("bad1"), "bad2": mk("bad2"), "unk": mk("unk1")}
+		for name, v := range vals {
+			v := v
+			w.present[name] = func() (bool, string) {
+				dec := new(batched.BatchedTokenRequest) // the issuer side decodes what arrives
+				if !dec.Unmarshal(append([]byte{}, v.enc...)) {
+					panic("harness: batch request does not decode")
+				}
+				resp, err := bi.EvaluateBatch(dec)
+				if err != nil {
+					return false, ""
+				}
+				rs, err := batched.UnmarshalBatchedTokenResponses(append([]byte{}, resp...))
+				if err != nil || len(rs) != len(v.fins) {
+					return false, ""
+				}
+				all := true
+				for j, rj := range rs {
+					if len(rj) == 0 {
+						all = false
+						continue
+					}
+					tok, err := v.fins[j](rj)
+					if err != nil || !v.ok[j](tok) {
+						w.sound = false
+					}
+				}
+				return all, ""
+			}
+		}
 	case "ecdsa":
 		curve := []elliptic.Curve{elliptic.P256(), elliptic.P384(), elliptic.P521(), elliptic.P224()}[hid%4]
 		key := sfKey(c.seed, curve, "k")
@@ -358,6 +447,14 @@ func newVerdictWorld(c *ctx, kind string, hid int) *verdictWorld {
 }
 
 func bytesEq(a, b []byte) bool { return string(a) == string(b) }
+
+func bytesRepeat(b byte, n int) []byte {
+	out := make([]byte, n)
+	for i := range out {
+		out[i] = b
+	}
+	return out
+}
 
 func execVerdicts(c *ctx, in ev) []ev {
 	kind, hid := gS(in, "kind"), gI(in, "hid")
